@@ -1,20 +1,28 @@
 /-
 Compiler correctness (Props/Refine.lean), part 4: statements.
 
-`node_sim` / `nodes_sim`: for every statement of the core `InCoreNode` (template text, `{{ e }}`,
-`{% set %}` / `{% set_global %}`, `{% if %}` / `{% elif %}` / `{% else %}` — an `elif` is an `if`
-in the else branch —, `{% break %}` / `{% continue %}` inside a loop body, over expressions of
-`InCore`), compiled at any index, from any VM state `st` whose scope, output and capture stack
-correspond to the evaluator's statement state `est` (`StSim`):
+`node_sim` / `nodes_sim`: for every statement of the core `InCoreNode lf inLoop` — template text,
+`{{ e }}`, `{% set %}` / `{% set_global %}`, `{% if %}` / `{% elif %}` / `{% else %}` (an `elif`
+is an `if` in the else branch), `{% filter %}` sections, `{% set %}` blocks with filter chains,
+and, outside the loop-free core (`lf = false`), `{% for %}` loops (key / value, `{% else %}`,
+nested) with `{% break %}` / `{% continue %}` inside loop bodies (`inLoop = true`), all over
+expressions of `InCore lf` — compiled at any index, from any VM state `st` whose scope, output
+and capture stack correspond to the evaluator's statement state `est` (`StSim`):
 
 * `execNode fuel eenv vm.autoescape est n = .ok (est', sig)` ⟹ the interpreter loop runs from
   `base` and ends in `withSc st est' sc'`: the SAME value stack and block bookkeeping, the
-  evaluator's output and capture stack, and a scope `sc'` corresponding to the evaluator's
-  (`ScopeSim`) whose loops have the same `end_ip`s as before; it stops
+  evaluator's output and capture stack (so the text written, escaped or not, is the evaluator's),
+  and a scope `sc'` corresponding to the evaluator's (`ScopeSim`: the variables assigned are the
+  evaluator's) whose loops have the same `end_ip`s as before; it stops
     - at `base + |code|` when `sig` is `normal`,
     - at the `end_ip` of the innermost loop when `sig` is `brk` (what `Break` jumps to),
     - at the compiler's current loop index when `sig` is `cont` (what `continue` compiles to);
-* an error ⟹ a rendering error of the same class; never a panic.
+* an error ⟹ a rendering error of the same class; never a panic;
+
+whatever the nested interpreter `rec` is.  Induction on the evaluator's fuel (`NodeSimAt`:
+statements, statement lists, the loop of a `for`), on top of `expr_sim` / `kwargs_sim`.
+Not covered: `include` (the only statement of the fragment that calls the nested interpreter),
+`block`, component calls.
 -/
 import TeraModel.Lemmas.RefineExpr
 namespace Tera.Refine
@@ -150,6 +158,17 @@ inductive InCoreNode (lf : Bool) : Bool → Node → Prop
       InCoreNode lf inLoop (.if cnd body falseBody)
   | «break» : InCoreNode lf true .break
   | «continue» : InCoreNode lf true .continue
+  /-- `{% filter name(k = v, …) %} body {% endfilter %}`: the body is rendered into a capture
+  buffer (no `break` / `continue` across it) -/
+  | filterSection {inLoop : Bool} (name : String) {kwargs : List (String × Expr)} {body : List Node} :
+      (∀ p ∈ kwargs, InCore lf p.2) → (kwargs.map (·.1)).Nodup → (∀ n ∈ body, InCoreNode lf false n) →
+      InCoreNode lf inLoop (.filterSection name kwargs body)
+  /-- `{% set name | f | g %} body {% endset %}` / `set_global`: every filter is a filter node -/
+  | blockSet {inLoop : Bool} (name : String) (global : Bool) {filters : List Expr} {body : List Node} :
+      (∀ f ∈ filters, ∃ src fname kwargs, f = .filter src fname kwargs
+        ∧ (∀ p ∈ kwargs, InCore lf p.2) ∧ (kwargs.map (·.1)).Nodup) →
+      (∀ n ∈ body, InCoreNode lf false n) →
+      InCoreNode lf inLoop (.blockSet name filters body global)
   /-- `{% for key, value in target %} body {% else %} elseBody {% endfor %}` (only outside the
   loop-free core); the body is a loop body, the else branch is where the loop is -/
   | forLoop {inLoop : Bool} (key : Option String) (value : String) {target : Expr}
@@ -291,6 +310,126 @@ theorem run_break {pc : Nat} (h : EntryAt c pc (ns .break_)) (st : State) (l : F
   simp only [ns, Pipeline.vinstr, Option.some.injEq] at hv
   subst hv
   exact Run.one hc (by intro rec; simp only [step, stepBreak, hl])
+
+theorem run_capture {pc : Nat} (h : EntryAt c pc (ns .capture)) (st : State) :
+    Run venv vm c pc st [pc] (pc + 1) { st with captures := [] :: st.captures } := by
+  obtain ⟨vi, sps, hv, hc, _⟩ := h
+  simp only [ns, Pipeline.vinstr, Option.some.injEq] at hv
+  subst hv
+  exact Run.one hc (by intro rec; simp only [step])
+
+theorem run_endCapture {pc : Nat} {hasSpan : Bool} (h : EntryAt c pc (.endCapture, hasSpan))
+    (st : State) (buf : List Char) (restCaps : List (List Char)) (hcap : st.captures = buf :: restCaps) :
+    Run venv vm c pc st [pc] (pc + 1)
+      (({ st with captures := restCaps } : State).push (.str true buf) (pc, pc)) := by
+  obtain ⟨vi, sps, hv, hc, _⟩ := h
+  simp only [Pipeline.vinstr, Option.some.injEq] at hv
+  subst hv
+  exact Run.one hc (by intro rec; simp only [step, stepEndCapture, hcap]; rfl)
+
+theorem spanOk_of_hasSpan {pc : Nat} {i : CInstr} (h : EntryAt c pc (i, true)) : SpanOk c (pc, pc) := by
+  obtain ⟨vi, sps, _, hc, hs⟩ := h
+  exact SpanOk.own hc (by simpa using hs)
+
+/-- the filter chain of a set block (`filtersCode`) against `applyFilters`: the captured text (or
+the previous filter's result) is on top of the stack -/
+theorem filters_sim (hE : EnvRel venv eenv) (hB : BuiltinsRel venv eenv)
+    (ht : reportTargetOk venv vm c = true) :
+    ∀ (filters : List Expr),
+      (∀ f ∈ filters, ∃ src fname kwargs, f = .filter src fname kwargs
+        ∧ (∀ p ∈ kwargs, InCore lf p.2) ∧ (kwargs.map (·.1)).Nodup) →
+    ∀ (fuel base : Nat) (loop : Option Nat) (st : State) (sc : Scope) (v : Value) (rv : SpanRange),
+      ScopeSim sc st.scope → (filters ≠ [] → SpanOk c rv) →
+      CodeAt c base (filtersCode base loop filters) →
+      match applyFilters fuel eenv sc filters v with
+      | .ok v' => ∃ tr rv', Run venv vm c base (st.push v rv) tr
+            (base + (filtersCode base loop filters).length) (st.push v' rv')
+          ∧ Within base (base + (filtersCode base loop filters).length) tr
+          ∧ (lf = true → tr.length ≤ (filtersCode base loop filters).length)
+      | .error err => reportable err = true → ∃ tr re, Fails venv vm c base (st.push v rv) tr re
+          ∧ errMatch err re = true ∧ Within base (base + (filtersCode base loop filters).length) tr
+          ∧ (lf = true → tr.length ≤ (filtersCode base loop filters).length) := by
+  intro filters
+  induction filters with
+  | nil =>
+    intro _ fuel base loop st sc v rv _ _ _
+    cases fuel with
+    | zero => simp only [applyFilters]; intro h; simp [reportable] at h
+    | succ f =>
+      simp only [applyFilters, filtersCode, List.length_nil]
+      exact ⟨[], rv, Run.nil _ _, Within.nil, by bnd⟩
+  | cons f rest ih =>
+    intro hall fuel base loop st sc v rv hsc hrv hcode
+    obtain ⟨src, fname, kwargs, rfl, hkw, hnd⟩ := hall f (by simp)
+    have hrest := fun g hg => hall g (List.mem_cons_of_mem _ hg)
+    cases fuel with
+    | zero => simp only [applyFilters]; intro h; simp [reportable] at h
+    | succ fuel =>
+      simp only [applyFilters, filtersCode] at hcode ⊢
+      rw [CodeAt.append, CodeAt.append] at hcode
+      obtain ⟨⟨hcK, hcBF⟩, hcR⟩ := hcode
+      simp only [CodeAt, ← Nat.add_assoc] at hcBF
+      obtain ⟨hentB, hentF, _⟩ := hcBF
+      simp only [List.length_append, List.length_cons, List.length_nil, ← Nat.add_assoc, Nat.zero_add]
+        at hcR ⊢
+      have hsv : SpanOk c rv := hrv (by simp)
+      have IHk : KwOutcome venv vm c lf (evalKwargs fuel eenv sc kwargs) _ _ (st.push v rv) :=
+        kwargs_sim hE hB ht fuel kwargs hkw base loop (st.push v rv) sc hsc hcK
+      cases hr1 : evalKwargs fuel eenv sc kwargs with
+      | error err =>
+        rw [hr1] at IHk
+        simp only
+        intro hrep
+        obtain ⟨tr, re, hf, hm, hw, hl⟩ := IHk hrep
+        exact ⟨tr, re, hf, hm, hw.mono (Nat.le_refl _) (by omega), by bnd⟩
+      | ok kw =>
+        rw [hr1] at IHk
+        obtain ⟨trK, stk, hrunK, hstk, hwK, hl0⟩ := IHk
+        have hnames := evalKwargs_names eenv sc kwargs fuel kw hr1
+        have hd : (kw.map (·.1)).Nodup := by rw [hnames]; exact hnd
+        have hlen : kwargs.length = kw.length := by
+          have := congrArg List.length hnames; simpa using this.symm
+        have hrunB := run_buildKwargs (venv := venv) (vm := vm) hentB (st.push v rv) kw stk hlen hstk
+        have hF := filter_sim hentF hB ht st v rv kw
+          (base + (kwargsCode base loop kwargs).length, base + (kwargsCode base loop kwargs).length) hd hsv
+        simp only
+        cases hb : applyFilter eenv fname v kw with
+        | error err =>
+          rw [hb] at hF
+          simp only
+          intro hrep
+          obtain ⟨re, hf, hm⟩ := hF hrep
+          exact ⟨trK ++ [_] ++ [_], re, (hrunK.trans hrunB).fails hf, hm,
+            ((hwK.mono (Nat.le_refl _) (by omega)).append (Within.single (by omega) (by omega))).append
+              (Within.single (by omega) (by omega)), by bnd⟩
+        | ok v1 =>
+          rw [hb] at hF
+          simp only
+          have IHr := ih hrest fuel _ loop st sc v1
+            (base + (kwargsCode base loop kwargs).length + 1, base + (kwargsCode base loop kwargs).length + 1)
+            hsc (fun _ => spanOk_own hentF) hcR
+          have hpre : Run venv vm c base (st.push v rv)
+              (trK ++ [base + (kwargsCode base loop kwargs).length]
+                ++ [base + (kwargsCode base loop kwargs).length + 1])
+              (base + (kwargsCode base loop kwargs).length + 1 + 1) (st.push v1 _) :=
+            (hrunK.trans hrunB).trans hF
+          have hwpre : Within base (base + (kwargsCode base loop kwargs).length + 1 + 1
+              + (filtersCode (base + (kwargsCode base loop kwargs).length + 1 + 1) loop rest).length)
+              (trK ++ [base + (kwargsCode base loop kwargs).length]
+                ++ [base + (kwargsCode base loop kwargs).length + 1]) :=
+            ((hwK.mono (Nat.le_refl _) (by omega)).append (Within.single (by omega) (by omega))).append
+              (Within.single (by omega) (by omega))
+          cases hr2 : applyFilters fuel eenv sc rest v1 with
+          | error err =>
+            rw [hr2] at IHr
+            intro hrep
+            obtain ⟨tr, re, hf, hm, hw, hl1⟩ := IHr hrep
+            exact ⟨_, re, hpre.fails hf, hm, hwpre.append (hw.mono (by omega) (by omega)), by bnd⟩
+          | ok v' =>
+            rw [hr2] at IHr
+            obtain ⟨tr, rv', hrun, hw, hl1⟩ := IHr
+            exact ⟨_, rv', (hpre.trans hrun).cast (by omega), hwpre.append (hw.mono (by omega) (by omega)),
+              by bnd⟩
 
 /-! ### outcome combinators -/
 
@@ -718,6 +857,217 @@ theorem node_step (hE : EnvRel venv eenv) (hB : BuiltinsRel venv eenv)
       rw [withSc_self hst]
       exact run_jump hcode.1 st
 
+  | @filterSection _ name kwargs body hkw hnd hbody =>
+    intro base loop st est hst hctx hcode
+    simp only [nodeCode] at hcode ⊢
+    rw [CodeAt.append, CodeAt.append, CodeAt.append, CodeAt.append] at hcode
+    obtain ⟨⟨⟨⟨hcC, hcB⟩, hcE⟩, hcK⟩, hcT⟩ := hcode
+    have hentC := CodeAt.single.mp hcC
+    have hentE := CodeAt.single.mp hcE
+    simp only [CodeAt, List.length_append, List.length_singleton, ← Nat.add_assoc] at hcT
+    obtain ⟨hentB, hentF, hentW, _⟩ := hcT
+    simp only [List.length_append, List.length_singleton, List.length_cons, List.length_nil,
+      ← Nat.add_assoc, Nat.zero_add] at hcB hentE hcK ⊢
+    simp only [execNode]
+    have hstC : StSim { est with captures := [] :: est.captures }
+        { st with captures := [] :: st.captures } := ⟨hst.1, hst.2.1, by rw [hst.2.2]⟩
+    have hrunC := run_capture (venv := venv) (vm := vm) hentC st
+    have IHb := H.nodes false body hbody (base + 1) loop { st with captures := [] :: st.captures }
+      { est with captures := [] :: est.captures } hstC (fun h => by cases h) hcB
+    cases hr : execNodes fuel eenv vm.autoescape { est with captures := [] :: est.captures } body with
+    | error err =>
+      rw [hr] at IHb
+      intro hrep
+      obtain ⟨tr, re, hf, hm, hw, hl0⟩ := IHb hrep
+      exact ⟨[base] ++ tr, re, hrunC.fails hf, hm,
+        (Within.single (Nat.le_refl _) (by omega)).append (hw.mono (by omega) (by omega)), by bnd⟩
+    | ok p =>
+      obtain ⟨est1, sig⟩ := p
+      rw [hr] at IHb
+      cases sig with
+      | brk => simp only; intro h; simp [reportable] at h
+      | cont => simp only; intro h; simp [reportable] at h
+      | normal =>
+        obtain ⟨trB, sc1, hsc1, hends1, hrunB, hwB, hl0⟩ := IHb
+        have hrunB' : Run venv vm c (base + 1) { st with captures := [] :: st.captures } trB
+            (base + 1 + (nodesCode (base + 1) loop body).length) (withSc st est1 sc1) := hrunB
+        simp only
+        cases hcap : est1.captures with
+        | nil => simp only; intro h; simp [reportable] at h
+        | cons buf restCaps =>
+          simp only
+          have hEnd := run_endCapture (venv := venv) (vm := vm) hentE (withSc st est1 sc1) buf restCaps hcap
+          have hst2 : StSim { est1 with captures := restCaps }
+              (withSc st { est1 with captures := restCaps } sc1) := StSim.withSc st hsc1
+          have hEnd' : Run venv vm c (base + 1 + (nodesCode (base + 1) loop body).length)
+              (withSc st est1 sc1) [base + 1 + (nodesCode (base + 1) loop body).length]
+              (base + 1 + (nodesCode (base + 1) loop body).length + 1)
+              ((withSc st { est1 with captures := restCaps } sc1).push (.str true buf)
+                (base + 1 + (nodesCode (base + 1) loop body).length,
+                 base + 1 + (nodesCode (base + 1) loop body).length)) := hEnd
+          have hspE : SpanOk c (base + 1 + (nodesCode (base + 1) loop body).length,
+              base + 1 + (nodesCode (base + 1) loop body).length) := spanOk_own hentE
+          have IHk : KwOutcome venv vm c lf (evalKwargs fuel eenv est1.scope kwargs) _ _
+              ((withSc st { est1 with captures := restCaps } sc1).push (.str true buf) _) :=
+            kwargs_sim hE hB ht fuel kwargs hkw _ loop
+              ((withSc st { est1 with captures := restCaps } sc1).push (.str true buf)
+                (base + 1 + (nodesCode (base + 1) loop body).length,
+                 base + 1 + (nodesCode (base + 1) loop body).length)) est1.scope hsc1 hcK
+          have hpre := (hrunC.trans hrunB').trans hEnd'
+          have hwpre : Within base (base + (1 + (nodesCode (base + 1) loop body).length + 1
+              + (kwargsCode (base + 1 + (nodesCode (base + 1) loop body).length + 1) loop kwargs).length
+              + 1 + 1 + 1))
+              ([base] ++ trB ++ [base + 1 + (nodesCode (base + 1) loop body).length]) :=
+            ((Within.single (Nat.le_refl _) (by omega)).append (hwB.mono (by omega) (by omega))).append
+              (Within.single (by omega) (by omega))
+          cases hr1 : evalKwargs fuel eenv est1.scope kwargs with
+          | error err =>
+            rw [hr1] at IHk
+            intro hrep
+            obtain ⟨tr, re, hf, hm, hw, hl1⟩ := IHk hrep
+            exact ⟨_, re, hpre.fails hf, hm, hwpre.append (hw.mono (by omega) (by omega)), by bnd⟩
+          | ok kw =>
+            rw [hr1] at IHk
+            obtain ⟨trK, stk, hrunK, hstk, hwK, hl1⟩ := IHk
+            have hnames := evalKwargs_names eenv est1.scope kwargs fuel kw hr1
+            have hd : (kw.map (·.1)).Nodup := by rw [hnames]; exact hnd
+            have hlen : kwargs.length = kw.length := by
+              have := congrArg List.length hnames; simpa using this.symm
+            have hrunBM := run_buildKwargs (venv := venv) (vm := vm) hentB
+              ((withSc st { est1 with captures := restCaps } sc1).push (.str true buf) _) kw stk hlen hstk
+            have hF := filter_sim hentF hB ht (withSc st { est1 with captures := restCaps } sc1)
+              (.str true buf) _ kw
+              (base + 1 + (nodesCode (base + 1) loop body).length + 1
+                  + (kwargsCode (base + 1 + (nodesCode (base + 1) loop body).length + 1) loop kwargs).length,
+               base + 1 + (nodesCode (base + 1) loop body).length + 1
+                  + (kwargsCode (base + 1 + (nodesCode (base + 1) loop body).length + 1) loop kwargs).length)
+              hd hspE
+            have hwpre2 := (hwpre.append (hwK.mono (by omega) (by omega))).append
+              (Within.single (lo := base) (hi := base + (1 + (nodesCode (base + 1) loop body).length + 1
+                + (kwargsCode (base + 1 + (nodesCode (base + 1) loop body).length + 1) loop kwargs).length
+                + 1 + 1 + 1))
+                (p := base + 1 + (nodesCode (base + 1) loop body).length + 1
+                  + (kwargsCode (base + 1 + (nodesCode (base + 1) loop body).length + 1) loop kwargs).length)
+                (by omega) (by omega))
+            simp only
+            cases hb : applyFilter eenv name (.str true buf) kw with
+            | error err =>
+              rw [hb] at hF
+              intro hrep
+              obtain ⟨re, hf, hm⟩ := hF hrep
+              exact ⟨_, re, ((hpre.trans hrunK).trans hrunBM).fails hf, hm,
+                hwpre2.append (Within.single (by omega) (by omega)), by bnd⟩
+            | ok r =>
+              rw [hb] at hF
+              simp only
+              have hW := writeTop_sim hentW hE ht (withSc st { est1 with captures := restCaps } sc1)
+                { est1 with captures := restCaps } hst2 r _ (spanOk_own hentF)
+              cases hw : writeValue eenv vm.autoescape { est1 with captures := restCaps } r with
+              | error err =>
+                rw [hw] at hW
+                obtain ⟨re, hf, hm⟩ := hW
+                simp only [Except.map]
+                exact fun _ => ⟨_, re, (((hpre.trans hrunK).trans hrunBM).trans hF).fails hf, hm,
+                  (hwpre2.append (Within.single (by omega) (by omega))).append
+                    (Within.single (by omega) (by omega)), by bnd⟩
+              | ok est3 =>
+                rw [hw] at hW
+                simp only [Except.map]
+                have hrunAll := (((hpre.trans hrunK).trans hrunBM).trans hF).trans hW.1
+                have hsc3 : ScopeSim est3.scope sc1 := by rw [hW.2]; exact hsc1
+                exact ⟨_, sc1, hsc3, hends1, hrunAll.cast (by omega),
+                  (hwpre2.append (Within.single (by omega) (by omega))).append
+                    (Within.single (by omega) (by omega)), by bnd⟩
+  | @blockSet _ name global filters body hfilters hbody =>
+    intro base loop st est hst hctx hcode
+    simp only [nodeCode] at hcode ⊢
+    rw [CodeAt.append, CodeAt.append, CodeAt.append, CodeAt.append] at hcode
+    obtain ⟨⟨⟨⟨hcC, hcB⟩, hcE⟩, hcF⟩, hcS⟩ := hcode
+    have hentC := CodeAt.single.mp hcC
+    have hentE := CodeAt.single.mp hcE
+    have hentS := CodeAt.single.mp hcS
+    simp only [List.length_append, List.length_singleton, List.length_cons, List.length_nil,
+      ← Nat.add_assoc, Nat.zero_add] at hcB hentE hcF hentS ⊢
+    simp only [execNode]
+    have hstC : StSim { est with captures := [] :: est.captures }
+        { st with captures := [] :: st.captures } := ⟨hst.1, hst.2.1, by rw [hst.2.2]⟩
+    have hrunC := run_capture (venv := venv) (vm := vm) hentC st
+    have IHb := H.nodes false body hbody (base + 1) loop { st with captures := [] :: st.captures }
+      { est with captures := [] :: est.captures } hstC (fun h => by cases h) hcB
+    cases hr : execNodes fuel eenv vm.autoescape { est with captures := [] :: est.captures } body with
+    | error err =>
+      rw [hr] at IHb
+      intro hrep
+      obtain ⟨tr, re, hf, hm, hw, hl0⟩ := IHb hrep
+      exact ⟨[base] ++ tr, re, hrunC.fails hf, hm,
+        (Within.single (Nat.le_refl _) (by omega)).append (hw.mono (by omega) (by omega)), by bnd⟩
+    | ok p =>
+      obtain ⟨est1, sig⟩ := p
+      rw [hr] at IHb
+      cases sig with
+      | brk => simp only; intro h; simp [reportable] at h
+      | cont => simp only; intro h; simp [reportable] at h
+      | normal =>
+        obtain ⟨trB, sc1, hsc1, hends1, hrunB, hwB, hl0⟩ := IHb
+        have hrunB' : Run venv vm c (base + 1) { st with captures := [] :: st.captures } trB
+            (base + 1 + (nodesCode (base + 1) loop body).length) (withSc st est1 sc1) := hrunB
+        simp only
+        cases hcap : est1.captures with
+        | nil => simp only; intro h; simp [reportable] at h
+        | cons buf restCaps =>
+          simp only
+          have hEnd := run_endCapture (venv := venv) (vm := vm) hentE (withSc st est1 sc1) buf restCaps hcap
+          have hEnd' : Run venv vm c (base + 1 + (nodesCode (base + 1) loop body).length)
+              (withSc st est1 sc1) [base + 1 + (nodesCode (base + 1) loop body).length]
+              (base + 1 + (nodesCode (base + 1) loop body).length + 1)
+              ((withSc st { est1 with captures := restCaps } sc1).push (.str true buf)
+                (base + 1 + (nodesCode (base + 1) loop body).length,
+                 base + 1 + (nodesCode (base + 1) loop body).length)) := hEnd
+          have hspE : filters ≠ [] → SpanOk c (base + 1 + (nodesCode (base + 1) loop body).length,
+              base + 1 + (nodesCode (base + 1) loop body).length) := by
+            intro hne
+            have : (!filters.isEmpty) = true := by
+              cases filters with
+              | nil => exact absurd rfl hne
+              | cons _ _ => rfl
+            rw [this] at hentE
+            exact spanOk_of_hasSpan hentE
+          have IHf := filters_sim (lf := lf) hE hB ht filters hfilters fuel _ loop
+            (withSc st { est1 with captures := restCaps } sc1) est1.scope (.str true buf)
+            (base + 1 + (nodesCode (base + 1) loop body).length,
+             base + 1 + (nodesCode (base + 1) loop body).length) hsc1 hspE hcF
+          have hpre := (hrunC.trans hrunB').trans hEnd'
+          have hwpre : Within base (base + (1 + (nodesCode (base + 1) loop body).length + 1
+              + (filtersCode (base + 1 + (nodesCode (base + 1) loop body).length + 1) loop filters).length
+              + 1))
+              ([base] ++ trB ++ [base + 1 + (nodesCode (base + 1) loop body).length]) :=
+            ((Within.single (Nat.le_refl _) (by omega)).append (hwB.mono (by omega) (by omega))).append
+              (Within.single (by omega) (by omega))
+          cases hrf : applyFilters fuel eenv est1.scope filters (.str true buf) with
+          | error err =>
+            rw [hrf] at IHf
+            intro hrep
+            obtain ⟨tr, re, hf, hm, hw, hl1⟩ := IHf hrep
+            exact ⟨_, re, hpre.fails hf, hm, hwpre.append (hw.mono (by omega) (by omega)), by bnd⟩
+          | ok v =>
+            rw [hrf] at IHf
+            obtain ⟨trF, rv', hrunF, hwF, hl1⟩ := IHf
+            simp only
+            have hS := run_set (venv := venv) (vm := vm) hentS
+              (withSc st { est1 with captures := restCaps } sc1) v rv'
+            refine ⟨_, (if global then sc1.storeGlobal name v else sc1.storeLocal name v), ?_, ?_,
+              (((hpre.trans hrunF).trans hS).cast (by omega)),
+              (hwpre.append (hwF.mono (by omega) (by omega))).append
+                (Within.single (by omega) (by omega)), by bnd⟩
+            · simp only [St.store]
+              cases global
+              · exact hsc1.storeLocal name v
+              · exact hsc1.storeGlobal name v
+            · cases global
+              · simp only [Bool.false_eq_true, if_false]
+                rw [ends_storeLocal]; exact hends1
+              · simp only [if_true]
+                rw [ends_storeGlobal]; exact hends1
   | @forLoop _ key value target body elseBody hlf htarget hbody helse =>
     intro base loop st est hst hctx hcode
     have hnb : ∀ {n m : Nat}, lf = true → n ≤ m := fun h => by rw [hlf] at h; cases h
